@@ -88,3 +88,35 @@ Definition frompage_judge2 (c : box * pnode * list (kind * Z)) : nat :=
     else 0))%nat.
 Definition once_why_page (c : box * pnode * list (kind * Z)) : list (Z * nat) :=
   let '(page, out, bits) := c in once_codes (paint_ctx out) true page.
+
+(* ---- display list tie (monitor A): the colours of the fills / text shows of the page's content stream, in
+        order, against the paint list of the model (bit 0) and of the Appendix E specification (bit 1) ----
+   ink: per box id the colour number of its background, border and text (negative = that paint leaves no ink:
+   transparent, hidden, zero width, blank).  The harness gives two tables: what the implementation's draw_* calls
+   produce for a paint event (model side) and what CSS prescribes (specification side). *)
+Fixpoint lookup3 (tbl : list (Z * (Z * Z * Z))) (id : Z) : Z * Z * Z :=
+  match tbl with
+  | [] => (-1, -1, -1)
+  | (k, v) :: r => if k =? id then v else lookup3 r id
+  end.
+Definition ink_of (tbl : list (Z * (Z * Z * Z))) (e : event) : list Z :=
+  match e with
+  | EPaint id ly =>
+      let '(bg, bd, tx) := lookup3 tbl id in
+      let c := match ly with LBg => bg | LBorder => bd | LContent => tx | LOutline => -1 end in
+      if c <? 0 then [] else [c]
+  | _ => []
+  end.
+Fixpoint dedup (l : list Z) : list Z :=
+  match l with
+  | a :: ((b :: _) as r) => if a =? b then dedup r else a :: dedup r
+  | _ => l
+  end.
+Definition ink_seq (tbl : list (Z * (Z * Z * Z))) (l : list event) : list Z := dedup (flat_map (ink_of tbl) l).
+
+Definition display_judge (c : box * list (Z * (Z * Z * Z)) * list (Z * (Z * Z * Z)) * list Z) : nat :=
+  let '(page, tbl_model, tbl_spec, observed) := c in
+  let obs := dedup observed in
+  ((if list_eqb Z.eqb (ink_seq tbl_model (paint_ctx (from_page (binfo page) (bkids page)))) obs then 0 else 1) +
+   (if wf_page page && regular page
+    then (if list_eqb Z.eqb (ink_seq tbl_spec (appendix_E_page page)) obs then 0 else 2) else 4))%nat.
